@@ -211,27 +211,29 @@ def run(rep, tier):
 
     # ---- R6: wake-up entry points deliver unconditionally
     from engine.kinds import bypass_path
-    TH = facts(rep, lib("threading", "src/thread.cpp"), [r"^pika::resume_thread$"])
+    from .common import join_wakeup
+    TH = facts(rep, lib("threading", "src/thread.cpp"), [r"^pika::thread::join$", r"^pika::resume_thread$"])
+    _, JCB, _, _ = join_wakeup(TH)          # the exit callback join() registers (pika::resume_thread today)
     AR = facts(rep, lib("execution_base", "src/agent_ref.cpp"), [r"^pika::execution::detail::agent_ref::(resume|abort)$"])
-    table = [(TH, r"^pika::resume_thread$", lambda e: e.get("k") == "call" and callee_of(e) == "pika::threads::detail::set_thread_state"),
+    table = [(TH, JCB, lambda e: e.get("k") == "call" and callee_of(e) == "pika::threads::detail::set_thread_state"),
              (E, r"execution_agent::do_resume$", lambda e: e.get("k") == "call" and callee_of(e) == "pika::threads::detail::set_thread_state"),
              (E, r"execution_agent::resume$", lambda e: e.get("k") == "call" and callee_short(e) == "do_resume"),
              (AR, r"agent_ref::resume$", lambda e: e.get("k") == "call" and callee_short(e) == "resume"),
              (AR, r"agent_ref::abort$", lambda e: e.get("k") == "call" and callee_short(e) == "abort")]
     for G_, rx, deliver in table:
-        fs = [f for f in G_.find(rx) if f.parent == -1]
+        fs = [rx] if not isinstance(rx, str) else [f for f in G_.find(rx) if f.parent == -1]
         if not fs:
             raise AnalysisBroken("wake-up entry point %s not found" % rx)
         for f in fs:
             if not any(deliver(e) for _, _, e in f.all_events()):
-                rep.bad("C02.R6", f, f.loc, "no-delivery:" + f.qname.rsplit("::", 1)[-1], "%s does not deliver the wake-up at all" % f.qname)
+                rep.bad("C02.R6", f, f.loc, "no-delivery:" + ("join-callback" if f is JCB else f.qname.rsplit("::", 1)[-1]), "%s does not deliver the wake-up at all" % f.qname)
                 continue
             byp = bypass_path(f, deliver)
             if byp is None:
-                rep.ok("C02.R6", f, "%s delivers the wake-up on every path" % f.qname.rsplit("::", 1)[-1])
+                rep.ok("C02.R6", f, "%s delivers the wake-up on every path" % ("thread::join's exit callback (%s)" % f.qname.rsplit("::", 1)[-1] if f is JCB else f.qname.rsplit("::", 1)[-1]))
             else:
                 conds = [T(f.blocks[b].cond) for b in byp if f.blocks[b].cond is not None]
-                rep.bad("C02.R6", f, f.loc, "wakeup-filtered:" + f.qname.rsplit("::", 1)[-1], "%s can return without delivering the wake-up (path through blocks %s, "
+                rep.bad("C02.R6", f, f.loc, "wakeup-filtered:" + ("join-callback" if f is JCB else f.qname.rsplit("::", 1)[-1]), "%s can return without delivering the wake-up (path through blocks %s, "
                         "conditions %s): a target that has registered as a waiter but is still 'active' (not yet switched off its worker) is never resumed"
                         % (f.qname, byp, conds[:3]), path=[{"block": b} for b in byp])
 
